@@ -24,7 +24,9 @@ var dataURIs = []string{
 
 // HostileURL returns a URL-ish string from the obfuscation families of §2.4.
 func HostileURL(r *rand.Rand) string {
-	switch r.Intn(12) {
+	switch r.Intn(13) {
+	case 12: // fragment-only and query-only references with bytes no URL may contain
+		return Pick(r, []string{"#\x01", "#a\rb", "#\x7f", "#a\x00b", "#%zz", "#%", "#top\x0b", "?\x01", "?a=\x7f", "#a b", "#\t", "# ", "#a\fb", "?q=\x1b", "#é\x02"})
 	case 0:
 		return dataURIs[r.Intn(len(dataURIs))]
 	case 1:
